@@ -136,9 +136,15 @@ def build_obj(sysin):
 
 
 def build_text(sysin):
-    """Formula-defined route: reaction TEXT from the spec, substances parsed from their formulas."""
+    """Text route: reaction TEXT from the spec.  Substances are formula-defined (parsed from their
+    names) unless the system contains a substance that is composed of nothing (third body, photon:
+    not a formula) - then every substance is given explicitly composed."""
     from chempy import ReactionSystem
+    from collections import OrderedDict
     txt = "\n".join(sysin["lines"])
+    if any(not seq(s["comp"]) for s in sysin["subs"]):
+        return observe_build(lambda: ReactionSystem.from_string(
+            txt, OrderedDict((s.name, s) for s in make_substances(sysin))))
     return observe_build(lambda: ReactionSystem.from_string(txt, " ".join(names_of(sysin))))
 
 
@@ -257,6 +263,8 @@ def integrate(odesys, names, c0, tout, atol, rtol):
 def observe_drift(yout, names_out, names, B, c0):
     """rows of B (the SPEC's matrix, columns ordered like `names`) applied to the result array."""
     import numpy as np
+    if not B:   # a system without any composition key has no invariant to drift
+        return []
     col = [list(names_out).index(n) for n in names]
     Y = np.asarray(yout, dtype=float)[:, col]
     Bm = np.asarray(B, dtype=float)
